@@ -129,6 +129,24 @@ SPECS += [
          raises={"FinamConnectError": "Err.connectErr"}, props=["C19"], **SCHED_COMMON),
 ]
 
+# ---- schedule.py : the link list of Composition.metadata (C19: exactly the links that were created) ---------------
+# a link end is a pair of objects: (component, output) / (adapter, adapter) as "from", (adapter, adapter) /
+# (owning component, input) as "to" — the dict displays with their f-string keys are read as these pairs
+LINK = "Tuple[Tuple[Obj,Obj],Tuple[Obj,Obj]]"
+SPECS += [
+    dict(lean="metadata_links", path="schedule.py", qual="Composition.metadata", group="Links",
+         slice={"start": "links = []", "end": "for ada in self._adapters:", "result": ["links"]},
+         fields={"_components": "List[Obj]", "_adapters": "List[Obj]", "_input_owners": "Dict[Obj,Obj]"},
+         ret="List[" + LINK + "]", locals={"links": "List[" + LINK + "]"},
+         consts={"comp.outputs.items()": ("(List.map (fun o => (o, o)) (h.outputs comp))", "List[Tuple[Obj,Obj]]"),
+                 "{'adapter': f'{target.name}@{id(target)}'}": ("(target, target)", "Tuple[Obj,Obj]"),
+                 "{'component': f'{owner.name}@{id(owner)}', 'input': target.name}": ("(owner, target)", "Tuple[Obj,Obj]"),
+                 "{'from': {'component': f'{comp.name}@{id(comp)}', 'output': out_name}, 'to': to}":
+                     ("((comp, out_name), to)", LINK),
+                 "{'from': {'adapter': f'{ada.name}@{id(ada)}'}, 'to': to}": ("((ada, ada), to)", LINK)},
+         props=["C19"], **SCHED_COMMON),
+]
+
 INTEG_COMMON = dict(
     path="adapters/time_integration.py", group="Integ", ret="Rat",
     calls={"self._unpack": "id", "interpolate": {"lean": "interpolate", "args": [0, 1, 2], "ret": "Rat"}},
